@@ -179,7 +179,7 @@ class Hang(Exception):
     pass
 
 
-def render_outcome(html, limit_s=20):
+def render_outcome(html, limit_s=20, options=None):
     """'ok' or `err:<Class>@<file>:<function>` (innermost weasyprint frame) for render + write_pdf; a render that
     exceeds `limit_s` seconds of CPU time is the outcome `err:Hang@<frame>`."""
     import signal
@@ -190,8 +190,9 @@ def render_outcome(html, limit_s=20):
     previous = signal.signal(signal.SIGPROF, on_alarm)
     signal.setitimer(signal.ITIMER_PROF, limit_s)
     try:
-        document = docs.render(html)
-        data = document.write_pdf()
+        options = options or {}
+        document = docs.html(html).render(**options)
+        data = document.write_pdf(**options)
         pages = len(document.pages)
         if pages > 400:
             return 'err:TooManyPages@layout'
